@@ -11,6 +11,7 @@ import (
 	"fmt"
 	"os"
 	"path/filepath"
+	"runtime/debug"
 	"strconv"
 
 	"github.com/junioryono/godi/v4/verifh/eng"
@@ -64,6 +65,8 @@ func main() {
 			fmt.Fprintln(os.Stderr, err)
 			os.Exit(2)
 		}
+		// a resolution that does not terminate must die quickly, not after eating 1 GB of stack
+		debug.SetMaxStack(64 << 20)
 		c := &eng.Ctx{Prop: *prop, Tier: *tier, Seed: *seed, Shard: *shard, NShards: *nshards, From: *from, Only: *only, R: r}
 		p.Run(c)
 		r.Finish()
